@@ -93,33 +93,62 @@ def rule_intersect(db, chk, cfg, rule="POLY.intersect"):
                 chk.violation(rule, f.qual, "%s|%s|point" % (f.sig[:40], "int" if "long" in f.sig else "fp"),
                               "GetSegmentIntersectPt [%s]: %s - as a real-number formula the result must be the crossing point of the two lines"
                               % (f.sig[:46], "; ".join(probs)), where(sx[2]), cfg=cfg)
-        # parallel test: `if (D == 0) return false`
+        # parallel test: the function answers false exactly when D == 0, D the cross product of the two directions.  Accepted shapes:
+        # `if (D == 0) return false;`, `if (!D) return false;`, `if (D != 0) { ... return true; } return false;` (operands in either order)
         found = False
+        want = (V(b1 + ".x") - V(a1 + ".x")) * (V(b2 + ".y") - V(a2 + ".y")) - (V(b1 + ".y") - V(a1 + ".y")) * (V(b2 + ".x") - V(a2 + ".x"))
+
+        def zero_test(c0):
+            """(expression tested, True if the condition means `== 0`) or None"""
+            c0 = _skip(c0)
+            if c0.get("kind") == "BinaryOperator" and c0.get("opcode") in ("==", "!="):
+                l, r = _skip(kids(c0)[0]), _skip(kids(c0)[1])
+                for x_, y_ in ((l, r), (r, l)):
+                    if y_.get("kind") in ("IntegerLiteral", "FloatingLiteral") and float(y_.get("value")) == 0.0:
+                        return x_, c0.get("opcode") == "=="
+            if c0.get("kind") == "UnaryOperator" and c0.get("opcode") == "!":
+                return _skip(kids(c0)[0]), True
+            return None
+        false_returns = [r for r in walk(f.body) if r.get("kind") == "ReturnStmt" and kids(r) and canon(kids(r)[0]) == "false"]
         for x in walk(f.body):
             if x.get("kind") != "IfStmt":
                 continue
             cond, then, els = if_parts(x)
-            c0 = _skip(cond)
-            rets = [y for y in walk(then) if y.get("kind") == "ReturnStmt"]
-            if c0.get("kind") == "BinaryOperator" and c0.get("opcode") == "==" and rets and canon(kids(rets[0])[0]) == "false":
-                l, r = kids(c0)
-                try:
-                    lv, rv = pe.ev(l), pe.ev(r)
-                except Unsupported:
-                    continue
-                d = lv - rv
-                want = (V(b1 + ".x") - V(a1 + ".x")) * (V(b2 + ".y") - V(a2 + ".y")) - (V(b1 + ".y") - V(a1 + ".y")) * (V(b2 + ".x") - V(a2 + ".x"))
-                found = True
-                n += 1
-                ok = (d - want).is_zero() or (d + want).is_zero()
-                chk.instance(rule, {"function": "GetSegmentIntersectPt", "sig": f.sig[:46], "obligation": "parallel iff direction cross product is 0", "cfg": cfg}, ok=ok)
-                if not ok:
-                    chk.violation(rule, f.qual, "%s|parallel" % f.sig[:40],
-                                  "GetSegmentIntersectPt [%s] reports 'parallel' when %s vanishes, which is not the cross product of the two directions"
-                                  % (f.sig[:46], _short(d)), where(x), cfg=cfg)
-                break
+            zt = zero_test(cond)
+            if zt is None:
+                continue
+            tested, is_eq = zt
+            br = then if is_eq else els
+            if is_eq:
+                governs = br is not None and any(r0.get("kind") == "ReturnStmt" and kids(r0) and canon(kids(r0)[0]) == "false" for r0 in walk(br))
+            else:
+                # `if (D != 0) {...}` followed (or else'd) by return false
+                governs = (br is not None and any(r0.get("kind") == "ReturnStmt" and kids(r0) and canon(kids(r0)[0]) == "false" for r0 in walk(br))) or \
+                    (br is None and any(r0.get("kind") == "ReturnStmt" and kids(r0) and canon(kids(r0)[0]) == "true" for r0 in walk(then)) and bool(false_returns))
+            if not governs:
+                continue
+            try:
+                d = pe.ev(tested)
+            except Unsupported:
+                continue
+            if not isinstance(d, Rat) or d.tag or not d.vars():
+                continue
+            found = True
+            n += 1
+            ok = (d - want).is_zero() or (d + want).is_zero()
+            chk.instance(rule, {"function": "GetSegmentIntersectPt", "sig": f.sig[:46], "obligation": "parallel iff direction cross product is 0", "cfg": cfg}, ok=ok)
+            if not ok:
+                chk.violation(rule, f.qual, "%s|parallel" % f.sig[:40],
+                              "GetSegmentIntersectPt [%s] reports 'parallel' when %s vanishes, which is not the cross product of the two directions"
+                              % (f.sig[:46], _short(d)), where(x), cfg=cfg)
+            break
         if not found:
-            raise AnalysisBroken("POLY.intersect: the parallel test (`if (det == 0) return false`) of %s was not found" % f.sig[:50])
+            n += 1
+            chk.instance(rule, {"function": "GetSegmentIntersectPt", "sig": f.sig[:46], "obligation": "parallel iff direction cross product is 0", "cfg": cfg}, ok=False)
+            chk.violation(rule, f.qual, "%s|parallel" % f.sig[:40],
+                          "GetSegmentIntersectPt [%s] has no exact test `<cross product of the directions> == 0 -> return false`%s: parallelism is no longer "
+                          "reported exactly (a tolerance makes nearly parallel segments 'parallel', no test at all divides by zero)"
+                          % (f.sig[:46], " (it returns false at %s under another condition)" % where(false_returns[0]) if false_returns else ""), f.where, cfg=cfg)
     return n
 
 
